@@ -4,7 +4,7 @@ import PyPhysim.Model.C20
 # C20 — executable model of `util.misc.gmd` (core Lean only)
 
 Mirrors the Givens-rotation sweep statement by statement.  `sigma_bar`
-(`np.prod(S[0:p])**(1./p)`) is a parameter: the harness passes the value the
+(`math.exp(np.mean(np.log(S[0:p])))`, the geometric mean) is a parameter: the harness passes the value the
 code computes and the oracle checks independently that it is the geometric
 mean.  Array accesses are checked: an index outside the array is the
 `IndexError` numpy would raise.
